@@ -10,6 +10,7 @@ import (
 	"os"
 	"reflect"
 	"sort"
+	"strconv"
 	"strings"
 	"sync"
 	"testing"
@@ -234,4 +235,16 @@ func FuzzProp[C any](f *testing.F, st *Stats, gen func(*rapid.T) C, check func(C
 			rt.Fatalf("%s violated: %v", st.Property, err)
 		}
 	}))
+}
+
+// Up scales a generator bound: unchanged in the quick tier; in the thorough tier the
+// odd-numbered shards explore structures twice as large (bigger pools, longer histories),
+// the even-numbered ones keep the quick tier's sizes with more cases.
+func Up(n int) int {
+	if os.Getenv("VERIF_TIER") == "thorough" {
+		if sh, err := strconv.Atoi(os.Getenv("VERIF_SHARD")); err == nil && sh%2 == 1 {
+			return 2 * n
+		}
+	}
+	return n
 }
